@@ -54,6 +54,7 @@ class _TextCueParser:
 
   def __init__(self, paragraph: model.P, line_number: int) -> None:
     self.line_num: int = line_number
+    self.paragraph: model.P = paragraph
     self.parent: model.ContentElement = paragraph
 
     # handle the special case of ruby elements where children cannot be added one by one
@@ -160,6 +161,10 @@ class _TextCueParser:
       return
 
   def _handle_endtag(self, _token: EndTagToken):
+
+    if self.parent is self.paragraph:
+      LOGGER.warning("End tag without start tag at line %s", self.line_num)
+      return
 
     if isinstance(self.parent, model.Ruby):
       self.ruby_rbc = None
